@@ -27,6 +27,7 @@ TRUTH = "OrqModel.Properties.Truth"
 ANCESTRY = "OrqModel.Properties.Ancestry"
 FRAME = "OrqModel.Properties.Frame"
 EDGES = "OrqModel.Properties.Edges"
+REMEDIATION = "OrqModel.Properties.Remediation"
 
 TRUSTED = [
     "Lean 4.33 kernel (thorough tier: re-checked by leanchecker)",
@@ -72,7 +73,7 @@ PROPS = {
     "C04": dict(
         title="terminal statuses are final",
         theorems={STATUS: ["C04_failed_final", "C04_canceled_final", "C04_succeeded_final", "C04_report_keeps_terminal", "tbl_succeeded_wf"], NEXT: ["C04_no_offer_when_succeeded_or_canceled", "C04_failed_offers_only_run_on_fail", "C04_rejected_request_no_effect", "tbl_valid_request_applies"],
-                  FRAME: ["C04_history_no_offer_after_terminal"]},
+                  FRAME: ["C04_history_no_offer_after_terminal"], REMEDIATION: ["C04_remediation_needs_fired_fail"]},
         keys=["status", "staged", "sequence", "tasks", "contexts", "routes"], offers="ids",
         prof=dict(), hist=dict(p_pause=0.05, p_cancel=0.05, p_any_req=0.5, p_dup_report=0.1, p_fail=0.35, p_bogus_report=0.08), monitor="C04", unproven=[],
     ),
